@@ -40,6 +40,7 @@ import (
 	"os"
 	"path/filepath"
 	"strings"
+	"time"
 
 	"github.com/9elements/converged-security-suite/v2/pkg/provisioning/bootguard"
 	"github.com/9elements/converged-security-suite/v2/pkg/tools"
@@ -536,13 +537,13 @@ func verifyVia(via int, file, km []byte, im *interMat) (int, string) {
 
 // judgeVia: same oracle, the file reaches VerifyBPM through NewBPMAndKM and through
 // NewBPMAndKMFromBIOS
-func (s *sess) judgeVia(m smut, km []byte, im *interMat) {
+func (s *sess) judgeVia(m smut, km []byte, im *interMat, image bool) {
 	c := s.r.c
 	file := joinElts(m.els)
 	same := bytes.Equal(file, s.sf.file)
 	raw, signedEnd := bpmRawValid(s.gen, file)
 	for via, name := range []string{"", "NewBPMAndKM", "NewBPMAndKMFromBIOS"} {
-		if via == 0 || via == 2 && len(file) > 0x3000 {
+		if via == 0 || via == 2 && (!image || len(file) > 0x3000) {
 			continue
 		}
 		s.human, s.ncalls = historyView(*s.global), len(*s.global)
@@ -667,6 +668,7 @@ type interMat struct {
 	garbage  string
 	missing  string
 	keys     []*rsa.PrivateKey
+	null     *os.File // where the output of Print* goes
 }
 
 // a 64 KiB BIOS-region-only image: ACM, KM and BPM blobs, a FIT (header, startup
@@ -782,9 +784,12 @@ func (m *interMat) intermezzo(rg *rand.Rand, which, gen, v int) string {
 		f()
 	}
 	stdout := os.Stdout
-	if null, e := os.OpenFile(os.DevNull, os.O_WRONLY, 0); e == nil {
-		os.Stdout = null
-		defer func() { os.Stdout = stdout; null.Close() }()
+	if m.null == nil {
+		m.null, _ = os.OpenFile(os.DevNull, os.O_WRONLY, 0)
+	}
+	if m.null != nil {
+		os.Stdout = m.null
+		defer func() { os.Stdout = stdout }()
 	}
 	p, pmsg := recoverCall(func() {
 		b := m.fresh(gen)
@@ -1014,6 +1019,13 @@ func confLit() string {
 func (r *run) structural() {
 	c := r.c
 	rg := c.Rng
+	phase := map[string]float64{}
+	last := time.Now()
+	lap := func(name string) {
+		phase[name] = time.Since(last).Seconds()
+		last = time.Now()
+	}
+	defer func() { c.Rep.Extra["structural_phase_seconds"] = phase }()
 	files := r.structMaterial()
 	type split struct {
 		sf  *signedFile
@@ -1042,6 +1054,7 @@ func (r *run) structural() {
 		return
 	}
 	c.Rep.Extra["structural_files"] = len(mats)
+	lap("material")
 
 	// ---- 1. every structural mutant, no other call in between
 	nmut := 0
@@ -1055,6 +1068,7 @@ func (r *run) structural() {
 		}
 	}
 	c.Rep.Extra["structural_mutants"] = nmut
+	lap("1-fresh")
 
 	im := r.interMaterial(files)
 	defer os.RemoveAll(im.dir)
@@ -1072,8 +1086,10 @@ func (r *run) structural() {
 		s := r.newSess(m.sf, m.els)
 		muts := append([]smut{{"the signed file itself", m.els}}, structuralMutants(rg, m.sf.gen, m.els, false)...)
 		s.global = &global
-		for _, mu := range muts {
-			s.judgeVia(mu, km, im)
+		// through the firmware image (a 64 KiB file per judgement): the signed file, the first
+		// exchanges of neighbours, and a random third of the rest
+		for i, mu := range muts {
+			s.judgeVia(mu, km, im, i < 4 || rg.Intn(3) == 0)
 		}
 	}
 
@@ -1083,6 +1099,7 @@ func (r *run) structural() {
 	// (succeeding and failing calls), other entry points in between; the panel is judged
 	// after every single call.  The process is never reset: what the harness reports as
 	// history is everything called since the stage began.
+	lap("1b-other-constructors")
 	var kms []*signedFile
 	for _, sf := range r.signed {
 		if sf.doc == 0 && sf.verifies && sf.by == "suite" && sf.lay.rawValid(sf.file) {
@@ -1140,11 +1157,17 @@ func (r *run) structural() {
 			bit := rg.Intn(len(km.file) * 8)
 			flips = append(flips, flipped{fmt.Sprintf("bit %d of the signed KM %s flipped", bit, km.name), 0, km, flip(km.file, bit)})
 		}
+		turn := 0
 		judgeAll := func(emit bool) {
+			// after every call: the signed file, the exchange of neighbours and one more
+			// mutant in turn; the whole panel at the start and at the end of the session
+			turn++
 			for i, s := range subs {
 				s.human, s.ncalls = historyView(global), len(global)
-				for _, mu := range panels[i] {
-					s.judge(mu, emit)
+				for k, mu := range panels[i] {
+					if emit || k < 2 || k == 2+turn%(len(panels[i])-1) {
+						s.judge(mu, emit)
+					}
 				}
 			}
 			for _, f := range flips {
@@ -1154,6 +1177,13 @@ func (r *run) structural() {
 		c.Begin(fmt.Sprintf("session %d (%s)", si, entryNames[which]), "pkg/provisioning/bootguard", map[string]interface{}{"calls_before": global})
 		obs0 := confLit()
 		judgeAll(si == 0)
+		if si > 0 {
+			for i, s := range subs {
+				for _, mu := range panels[i] {
+					s.judge(mu, false)
+				}
+			}
+		}
 		// the calls of this session
 		type callSpec struct{ which, gen, v int }
 		var calls []callSpec
@@ -1186,6 +1216,7 @@ func (r *run) structural() {
 		c.Add("session/configuration", fmt.Sprintf("CConf lib_default_conf %s %s", obs0, gal.List(steps)), map[string]interface{}{"session": si, "calls": global[len(global)-len(seq):]}, true)
 	}
 	c.Rep.Extra["session_calls"] = len(global)
+	lap("2-sessions")
 
 	// ---- 3. the configuration the suite's tools run with by default: main() of bg-prov,
 	// bg-suite, txt-prov and txt-suite assigns cbnt.StrictOrderCheck from a flag whose
@@ -1212,6 +1243,7 @@ func (r *run) structural() {
 		}
 	}()
 
+	lap("3-tool-default-config")
 	// ---- 4. fixed witnesses of the two open findings
 	for _, m := range mats {
 		if m.sf.gen != 2 || len(m.els) < 4 {
